@@ -255,3 +255,20 @@ func parseOp(e ipfslog.Entry) ([]byte, error) {
 }
 
 func cryptoUnmarshalEd(b []byte) (crypto.PubKey, error) { return crypto.UnmarshalEd25519PublicKey(b) }
+
+// metaStateOwn: the part of a metadata index that is told from the device's own point of view (to which members this
+// device has announced its chain key); only comparable between states of the SAME device.
+func metaStateOwn(ms *MetadataStore) string {
+	idx, ok := ms.Index().(*metadataStoreIndex)
+	if !ok {
+		return ""
+	}
+	var out []string
+	for _, m := range ms.ListMembers() {
+		mb, _ := m.Raw()
+		sent, err := idx.areSecretsAlreadySent(m)
+		out = append(out, fmt.Sprintf("%s:sent=%v(err=%v)", hex.EncodeToString(mb[:6]), sent, err != nil))
+	}
+	sort.Strings(out)
+	return fmt.Sprint(out)
+}
